@@ -119,6 +119,34 @@ Theorem C15_balanced_prefix : forall v,
 Proof. exact drain_prefix_balanced. Qed.
 Print Assumptions C15_balanced_prefix.
 
+(** Several readers of ONE value are independent state machines: in a run of
+    the readers [rs] under any schedule, what reader [i] delivers is what it
+    delivers when it makes the same number of calls alone... *)
+Theorem C15_readers_independent : forall rs sched i r,
+  nth_error rs i = Some r ->
+  map snd (filter (fun p => Nat.eqb (fst p) i) (run_product rs sched))
+  = run1 (count_occ Nat.eq_dec sched i) r.
+Proof. exact run_product_projects. Qed.
+Print Assumptions C15_readers_independent.
+
+(** ...[k] calls on a reader deliver the first [k] of what remains, then io.EOF... *)
+Theorem C15_reader_run : forall k r l m,
+  remaining r = (l, false) -> k <= m ->
+  run1 k r = firstn k (map CTok l ++ repeat CEof m).
+Proof. exact run1_remaining. Qed.
+Print Assumptions C15_reader_run.
+
+(** ...hence each of [n] readers of a captured value, interleaved in any way,
+    delivers the token stream of the tree and then io.EOF. *)
+Theorem C15_interleaved_readers : forall t n sched i,
+  i < n ->
+  map snd (filter (fun p => Nat.eqb (fst p) i)
+             (run_product (repeat (Reader (raw_of t) false false 0 None) n) sched))
+  = firstn (count_occ Nat.eq_dec sched i)
+           (map (fun x => CTok (Some x)) (tokens t) ++ repeat CEof (count_occ Nat.eq_dec sched i)).
+Proof. exact run_product_captured. Qed.
+Print Assumptions C15_interleaved_readers.
+
 (** ** MarshalXML *)
 
 (** The EncodeToken calls for a raw value that denotes a tree are the tokens of
@@ -281,3 +309,12 @@ Theorem C15_raw_agree_implies_spec_ok : forall v o,
   raw_agrees v o = true -> raw_spec_ok v o = true.
 Proof. exact raw_agree_implies_spec_ok. Qed.
 Print Assumptions C15_raw_agree_implies_spec_ok.
+
+(** Documents captured one after the other into one variable, a copy kept after
+    each capture: the copies are judged one by one (values are immutable in the
+    model; that the Go values do not share storage is what the run checks). *)
+Theorem C15_seq_agree_implies_spec_ok : forall l,
+  (forall p, In p l -> input_wf (fst p) = true /\ doc_kf (fst p) = false /\ doc_kf_in (fst p) = false) ->
+  seq_agrees l = true -> seq_spec_ok l = true.
+Proof. exact seq_agree_implies_spec_ok. Qed.
+Print Assumptions C15_seq_agree_implies_spec_ok.
